@@ -174,6 +174,8 @@ class Composite(LexicalParent[Node], HasCreator, Node, ABC):
         self.running_children = [n.label for n in self if n.running]
         self.signal_queue = []
 
+        errors: dict[str, Exception] = {}
+        accounted_for: set[str] = set()
         if len(self.running_children) > 0:  # Start from a broken process
             for label in self.running_children:
                 self.children[label].run()
@@ -183,12 +185,17 @@ class Composite(LexicalParent[Node], HasCreator, Node, ABC):
             for node in self.starting_nodes:
                 node.run()
 
-        self._run_while_children_or_signals_exist()
+        self._run_while_children_or_signals_exist(errors, accounted_for)
 
         return self
 
-    def _run_while_children_or_signals_exist(self):
-        errors = {}
+    def _run_while_children_or_signals_exist(
+        self,
+        errors: dict[str, Exception] | None = None,
+        accounted_for: set[str] | None = None,
+    ):
+        errors = {} if errors is None else errors
+        accounted_for = set() if accounted_for is None else accounted_for
         while len(self.running_children) > 0 or len(self.signal_queue) > 0:
             try:
                 firing, receiving = self.signal_queue.pop(0)
@@ -196,9 +203,25 @@ class Composite(LexicalParent[Node], HasCreator, Node, ABC):
                     receiving(firing)
                 except Exception as e:
                     errors[receiving.full_label] = e
+                    accounted_for.add(receiving.owner.label)
             except IndexError:
                 # The signal queue is empty, but there is still someone running...
                 sleep(self._child_sleep_interval)
+
+        # Children run on an executor fail inside a future's done-callback, from where
+        # the exception cannot propagate to us; find them by their status
+        for label in self.provenance_by_completion:
+            child = self.children.get(label)
+            if child is not None and child.failed and label not in accounted_for:
+                accounted_for.add(label)
+                exception = None
+                if child.future is not None and child.future.done():
+                    exception = child.future.exception()
+                errors[child.full_label] = (
+                    exception
+                    if isinstance(exception, Exception)
+                    else RuntimeError(f"{child.full_label} failed")
+                )
 
         if len(errors) == 1:
             raise FailedChildError(
